@@ -497,6 +497,11 @@ func (a *agg) evaluate(cases []Case, origin string) {
 			// real IAT sleeps with a pathological length table: not a verdict about the property
 			a.r.Count("skipped", "case-abandoned-after-300s")
 			fmt.Fprintf(os.Stderr, "case %s abandoned after the job timeout\n", cases[i].Name)
+			if a.r.ReplayDir != "" {
+				os.MkdirAll(a.r.ReplayDir, 0o755)
+				b, _ := json.MarshalIndent(map[string]interface{}{"property": a.r.Prop, "kind": "abandoned-slow-case", "case": cases[i]}, "", " ")
+				os.WriteFile(filepath.Join(a.r.ReplayDir, a.r.Prop+"-abandoned-"+cases[i].Name+".json"), b, 0o644)
+			}
 			continue
 		} else if err != nil || o.WorkerError != "" {
 			a.r.Violate("harness-worker-failed", "correspondence", fmt.Sprintf("[%s] worker: %v %s", cases[i].Name, err, o.WorkerError), cases[i])
@@ -644,7 +649,11 @@ func main() {
 		for lo := 0; lo < n && within(); lo += bs {
 			var cs []Case
 			for i := lo; i < lo+bs && i < n; i++ {
-				cs = append(cs, gen(i))
+				c := gen(i)
+				if only := os.Getenv("O4_ONLY"); only != "" && c.Name != only { // debugging aid
+					continue
+				}
+				cs = append(cs, c)
 			}
 			a.evaluate(cs, "generated")
 		}
